@@ -2,12 +2,14 @@
 import numpy as np
 import gen
 import spec
-from props.common import (check_translated_query, load_impl, make_prov, exc_name, rand_keys, rand_ckeys, rand_raw_data, raw_true, raw_to_exprs, raw_padding_kinds,
+from props.common import (check_translated_query, load_impl, make_prov, make_prov_late, first_mention_normal, flat_lits, exc_name, rand_keys, rand_ckeys, rand_raw_data, raw_true, raw_to_exprs, raw_padding_kinds,
                           raw_model_prov, make_raw_prov)
 
 RULE = ("random ragged DNF lists (rows 1-6, disjuncts 1-3, conjuncts 1-3, 2-3 candidates, value-0 literals, repeated units) "
         "x ALL assignments x encodings (int64 / int32 / uint8 / bool ndarray, int and bool list, dict with omitted units) x dtypes (bool, int); compared with the Lean model "
-        "Ds.Prov.query/ofExprs and with a structural truth evaluation of the source expressions. Non-trivial = the container holds "
+        "Ds.Prov.query/ofExprs and with a structural truth evaluation of the source expressions. About 1 expression case in 8 is built over an OPEN unit set "
+        "(Units(candidates=...) with no unit declared): the container is constructed from a proper prefix of the formulas and the rest is appended / inserted "
+        "afterwards, so units are registered on first mention and some only AFTER the container was constructed. Non-trivial = the container holds "
         "padding (rows of different shapes) and some row's truth value varies over the assignments; distinct = distinct expression lists. "
         "Second stream (1 case in 4): containers given as RAW (rows, disjuncts, conjuncts, 2) data through Provenance(units=..., data=...) "
         "(int64 / int32 ndarray, nested list, 3-D array for one disjunct) whose padding slots (-1,-1) stand anywhere - in front of, between and behind the "
@@ -78,12 +80,27 @@ def raw_case(ctx, I, n_units, n_cands, data):
                      failing_input=False, broken="corr:Ds.Prov.query / theorem C05_main")
 
 
-def one_case(ctx, I, n_units, n_cands, exprs):
+def one_case(ctx, I, n_units, n_cands, exprs, late=False):
+    """late: exprs is in first-mention-normal form over exactly n_units units; the container is built over an OPEN unit set from a proper prefix of
+    the formulas and the rest is appended afterwards, so some units may be registered only after the container was constructed."""
     keys, scheme = rand_keys(ctx.rng, n_units)
     ckeys, cscheme = rand_ckeys(ctx.rng, n_cands)
     via_default = ctx.rng.random() < 0.25
-    prov, units, es = make_prov(I, exprs, n_units, n_cands, keys=keys, lazy=(ctx.rng.random() < 0.3), ckeys=ckeys, via_default=via_default)
-    ctx.dist["built=" + ("default container edited in place" if via_default else "from expressions")] += 1
+    lazy = ctx.rng.random() < 0.3
+    if late and len(exprs) >= 2:
+        via_default = False
+        split = ctx.rng.randint(1, len(exprs) - 1)
+        prov, units, es = make_prov_late(I, exprs, n_units, split, n_cands, keys=keys, ckeys=ckeys)
+        seen = {l[0] for e in exprs[:split] for l in flat_lits(e)}
+        ctx.dist["built=over an open unit set from a prefix of the formulas, rest appended (%s)"
+                 % ("some unit first mentioned after construction" if len(seen) < n_units else "all units known at construction")] += 1
+        extra = dict(built="Units(candidates=%r) with no unit declared; Provenance(first %d formulas), then the others appended / inserted at the end "
+                           "one by one, each built just before; unit keys by position %r" % (list(ckeys), split, [str(k) for k in keys]))
+    else:
+        late = False
+        extra = {}
+        prov, units, es = make_prov(I, exprs, n_units, n_cands, keys=keys, lazy=lazy, ckeys=ckeys, via_default=via_default)
+        ctx.dist["built=" + ("default container edited in place" if via_default else "from expressions")] += 1
     ctx.dist["unit_keys=" + scheme] += 1
     ctx.dist["candidate_keys=" + cscheme] += 1
     asg = spec.assignments(n_units, n_cands)
@@ -108,25 +125,25 @@ def one_case(ctx, I, n_units, n_cands, exprs):
             bad = (a, exc_name(e), repr(e))
             break
         if any(v != m_arr for v in alt.values()):
-            ctx.mismatch("the answer depends on the dtype of the assignment vector", dict(nUnits=n_units, nCands=n_cands, exprs=exprs, assignment=a),
+            ctx.mismatch("the answer depends on the dtype of the assignment vector", dict(nUnits=n_units, nCands=n_cands, exprs=exprs, **extra, assignment=a),
                          impl=dict(int64=m_arr, **alt), spec=[spec.expr_true(e, a) for e in exprs])
             return
         if not (m_arr == m_list == m_dict) or idx != [i for i, x in enumerate(m_arr) if x]:
-            ctx.mismatch("encodings/dtypes disagree", dict(nUnits=n_units, nCands=n_cands, exprs=exprs, assignment=a),
+            ctx.mismatch("encodings/dtypes disagree", dict(nUnits=n_units, nCands=n_cands, exprs=exprs, **extra, assignment=a),
                          impl=dict(array=m_arr, list=m_list, dict=m_dict, idx=idx), spec=[spec.expr_true(e, a) for e in exprs])
             return
         impl_tab.append(m_arr)
-        check_translated_query(ctx, prov, a, m_arr, idx, dict(nUnits=n_units, nCands=n_cands, exprs=exprs))
+        check_translated_query(ctx, prov, a, m_arr, idx, dict(nUnits=n_units, nCands=n_cands, exprs=exprs, **extra))
     spec_tab = [[spec.expr_true(e, a) for e in exprs] for a in asg]
     model = ctx.model({"op": "history", "prov": {"nUnits": n_units, "nCands": n_cands, "exprs": exprs},
                        "ops": [{"op": "table"}, {"op": "dump"}]})
     model_tab = model["ok"][0] if model else None
     ragged = len({(len(e.get("disj", [0])) if "disj" in e else 1, max((len(c) for c in e["disj"]), default=1) if "disj" in e else (len(e["conj"]) if "conj" in e else 1)) for e in exprs}) > 1
     varies = any(len({row[i] for row in spec_tab}) > 1 for i in range(len(exprs)))
-    ctx.case(exprs, nontrivial=ragged and varies, sample=dict(nUnits=n_units, nCands=n_cands, exprs=exprs),
+    ctx.case(exprs, nontrivial=ragged and varies, sample=dict(nUnits=n_units, nCands=n_cands, exprs=exprs, **extra),
              rows=len(exprs), cands=n_cands, ragged=ragged)
     ctx.maxi(units=n_units, rows=len(exprs), assignments=len(asg))
-    case = dict(nUnits=n_units, nCands=n_cands, exprs=exprs)
+    case = dict(nUnits=n_units, nCands=n_cands, exprs=exprs, **extra)
     if bad is not None:
         ctx.mismatch("query raised", dict(case, assignment=bad[0]), impl=bad[1:], model=model_tab, spec="total")
         return
@@ -182,6 +199,12 @@ def run(ctx):
             n_units = min(n_units, 4)
         rows = rng.randint(1, 6)
         exprs = [gen.rand_expr_flat(rng, n_units, 3, 3, n_cands) for _ in range(rows)]
+        if rows >= 2 and rng.random() < 0.15:
+            # open unit set: built from a prefix of the formulas, the rest appended later (units renamed to their first-mention rank, which is the
+            # position the library gives them; units nobody mentions do not exist in an open set)
+            exprs, n_units = first_mention_normal(exprs)
+            one_case(ctx, I, n_units, n_cands, exprs, late=True)
+            continue
         one_case(ctx, I, n_units, n_cands, exprs)
         if ctx.elapsed() > (400 if ctx.tier == "quick" else 1800):
             break
